@@ -17,6 +17,15 @@ def sizes(rep, quick, thorough):
 
 # ------------------------------------------------------------------------------------------------ runs
 
+def compile_tie(rep, label, features, quick=120, thorough=1500):
+    """The engine properties are stated on stories as authors write them: a change of the COMPILER can break them while
+    engine and engine model still agree on whatever JSON comes out.  Each of those checks therefore also compiles sources
+    with the property's feature mix and compares the real compiler's output with Src.compileStory (the reference
+    compilation, Proofs/C01); on a mismatch the real engine plays both and a differing observation is the failing input."""
+    import fam_compile
+    fam_compile.compile_family(rep, sizes(rep, quick, thorough), features=features, label=label)
+
+
 def run_c02(rep):
     n, ops = sizes(rep, (320, 14), (5000, 60))
     families.play_family(rep, n, ops, features=dict(one_time=0.6, block_choices=0.6, join=0.4, conds=0.8),
@@ -28,6 +37,7 @@ def run_c02(rep):
                                                        stmt_faults=0.02, faults=0.05),
                          weights=dict(bad=4, choose=75, undo=3, redo=2, goto=6, read=4, save=1, load=1, fresh=1),
                          oracle_names=["oracle_c02"], known_classes=known_classes("C02"), label="c02-join")
+    compile_tie(rep, "c02-compile", dict(one_time=0.6, block_choices=0.7, join=0.5, conds=0.8))
 
 
 def run_c03(rep):
@@ -40,8 +50,14 @@ def run_c03(rep):
 def run_c04(rep):
     n, ops = sizes(rep, (320, 20), (5000, 120))
     families.play_family(rep, n, ops, features=dict(hooks=0.4, join=0.4, params=0.4, top_jumps=0.3),
-                         weights=dict(choose=45, bad=6, undo=20, redo=14, goto=3, read=6, save=1, load=1, fresh=1),
+                         weights=dict(choose=45, bad=6, undo=20, redo=14, goto=3, read=6, save=1, load=1, fresh=1, rechoose=0.4),
                          oracle_names=["oracle_c04"], known_classes=known_classes("C04"), label="c04")
+    # stories in which variables SHARE objects (ys = xs, a dict holding the list): outside the value semantics of the engine
+    # model, so real code only — the undo oracle, and "the same choice taken again after undo gives what it gave before"
+    n2, ops2 = sizes(rep, (200, 20), (3000, 80))
+    families.play_family(rep, n2, ops2, features=dict(alias=0.9, hooks=0.3, join=0.3, params=0.3, top_jumps=0.3),
+                         weights=dict(choose=50, bad=3, undo=22, redo=10, goto=2, read=4, save=1, load=1, fresh=1, rechoose=0.6),
+                         oracle_names=["oracle_c04"], known_classes=known_classes("C04"), label="c04-alias", model=False)
     # probe: a long run of choices crossing the 50-deep bound, then unwinding it completely
     probe = corr_play.run_fixed(":: Start\n~ n = 0\nHi\n+ [again] -> Loop\n\n:: Loop\n~ n = n + 1\n~ xs = [n]\nRound {n}\n+ [again] -> Loop\n",
                                 [{"op": "choose", "i": 0}] * 60 + [{"op": "undo"}] * 55 + [{"op": "redo"}] * 52 + [{"op": "undo"}] * 3,
@@ -62,6 +78,12 @@ def run_c07(rep):
                                                     block_choices=0.7, loops=0.5),
                          weights=dict(choose=65, goto=10, bad=3, undo=5, redo=3, read=5),
                          oracle_names=["oracle_c07"], known_classes=known_classes("C07"), label="c07")
+    compile_tie(rep, "c07-compile", dict(params=0.9, block_jumps=0.4, top_jumps=0.4, block_choices=0.7))
+    # call sites that do NOT follow Python's call rule must be rejected by the compiler (or fail as Python would): the same
+    # corrupted-call-site family that decides C12, judged by Python's own ast + call rule
+    import fam_graph
+    n2, ops2 = sizes(rep, (200, 10), (3000, 30))
+    fam_graph.graph_family(rep, n2, ops2, "C12", known_classes=known_classes("C12") | known_classes("C07"))
 
 
 def run_c09(rep):
@@ -69,6 +91,7 @@ def run_c09(rep):
     families.play_family(rep, n, ops, features=dict(hooks=0.95, join=0.4, conds=0.7, top_jumps=0.2, stmt_faults=0.03),
                          weights=dict(choose=62, goto=6, undo=8, redo=5, save=2, load=2, fresh=2, read=8, bad=3),
                          oracle_names=["oracle_c09"], known_classes=known_classes("C09"), label="c09")
+    compile_tie(rep, "c09-compile", dict(hooks=0.95, join=0.5, conds=0.7))
 
 
 def run_c10(rep):
@@ -77,14 +100,17 @@ def run_c10(rep):
                                                     params=0.15, stmt_faults=0.03, faults=0.08),
                          weights=dict(choose=70, goto=6, undo=7, redo=5, read=5, bad=3, save=1, load=1, fresh=1),
                          oracle_names=["oracle_c10"], known_classes=known_classes("C10"), label="c10")
+    compile_tie(rep, "c10-compile", dict(join=0.95, block_jumps=0.5, conds=0.7, one_time=0.5, hooks=0.3))
 
 
 def run_c08(rep):
     n, ops = sizes(rep, (400, 14), (6000, 40))
+    # (the chain's text must come with the FINAL passage's choices: the C02 oracle judges the offered list, join sections included)
     families.play_family(rep, n, ops, features=dict(top_jumps=0.6, block_jumps=0.7, markers=0.95, loops=0.5, conds=0.8,
-                                                    jump_mode_cycles=0.3, params=0.3),
+                                                    jump_mode_cycles=0.3, params=0.3, join=0.35),
                          weights=dict(choose=65, goto=12, undo=5, redo=3, read=8, bad=3),
-                         oracle_names=["oracle_c08"], known_classes=known_classes("C08"), label="c08")
+                         oracle_names=["oracle_c08", "oracle_c02"], known_classes=known_classes("C08") | known_classes("C02"), label="c08")
+    compile_tie(rep, "c08-compile", dict(top_jumps=0.6, block_jumps=0.7, loops=0.5, conds=0.8, params=0.3))
 
 
 def run_c15(rep):
@@ -103,6 +129,7 @@ def run_c05(rep):
     import fam_saveload
     n, ops, pts = sizes(rep, (200, 14, 3), (3000, 40, 6))
     fam_saveload.saveload_family(rep, n, ops, pts, known_classes=known_classes("C05"))
+    fam_saveload.session_probes(rep)
     n2, ops2 = sizes(rep, (300, 16), (4000, 40))
     families.play_family(rep, n2, ops2, features=dict(hooks=0.5, join=0.4, params=0.3),
                          weights=dict(choose=50, save=12, load=8, fresh=8, loadbad=4, undo=6, redo=3, goto=4, read=5),
